@@ -20,6 +20,10 @@ CHECKS = {
    text="Same harness for Deque: Push/Pop/ForcePush/Wait/WaitPush at both ends, Len, Close, Distributor Send/Receive on unlimited, fixed-capacity and quota deques, cancel and Close faults; porcupine against a sequential double-ended queue with capacity (plain push on full fails without effect, Force push on full evicts exactly one from the opposite end, after Close pushes fail with ErrQueueClosed and pops report not-ok).",
    note="Force pushes are generated only for capacity/unlimited deques (the statement defines 'full' there). Runs with two or more same-side waiters can livelock inside the library (cond.Signal before every cond.Wait) and are then budget-inconclusive for liveness; their safety history is skipped.",
    tech=TECH + "; porcupine linearizability vs sequential deque model"),
+ "C20": dict(cat="exploration", ref="§2 C20",
+   text="One or two iterator tasks of every non-destructive form (Queue.Iterator/Producer; Deque Iterator, IteratorReverse, Producer, ProducerReverse, ProducerBlocking, ProducerReverseBlocking) step while other tasks add and (second family) remove items under seeded schedules, then the container is closed or the iterator contexts cancelled. Oracles: no panic; every yielded value was added; without removals the yielded sequence is a gap-free prefix of the add order, a blocked iterator at quiescence has seen every item present, blocking forms return io.EOF after Close having yielded everything and return after cancel, non-blocking forms end with io.EOF.",
+   note="Reverse variants are fed with PushFront so that 'container order as seen by the iterator' equals add order. Two blocking Deque iterators can livelock inside the library (Signal before every Wait); those runs are budget-inconclusive.",
+   tech=TECH + "; prefix-of-add-order and quiescence oracles"),
 }
 NA = [
  ("C16", "dt.List/dt.Stack are single-goroutine data structures: the property quantifies over operation sequences only; there is no schedule, clock, fault or interleaving for a simulator to own (pure model-based testing target)."),
